@@ -33,6 +33,21 @@ Ltac rsame :=
           tryif constr_eq a b then idtac
           else (let H := fresh "Hc" in assert (H : a = b) by rsame; rewrite H; clear H);
           destruct b; rsame
+      end
+    | (* make the arguments of a function ring does not know (floor, sqrt, abs, tan ...) syntactically equal
+         where they are provably equal, then try again *)
+      progress (repeat match goal with
+                       | |- context [?f ?a] =>
+                           lazymatch type of f with
+                           | R -> R =>
+                               match goal with
+                               | |- context [f ?b] =>
+                                   tryif constr_eq a b then fail
+                                   else (let H := fresh "Ha" in assert (H : a = b) by rsame; rewrite H; clear H)
+                               end
+                           end
+                       end); rsame
+    | match goal with
       | |- ?f _ = ?g _ => progress f_equal; rsame
       end ].
 Ltac rnorm :=
